@@ -205,6 +205,22 @@ pub fn c08() -> SchedCampaign {
         families: vec![
             Family { weight: 5, params: life("lifecycle-all-forks", ALL_SPECS) },
             Family { weight: 3, params: life("lifecycle-modern", MODERN_SPECS) },
+            Family {
+                weight: 4,
+                params: GenParams {
+                    family: "destroy-flip",
+                    specs: ALL_SPECS,
+                    txs: (5, 14),
+                    n_eoa: 6,
+                    n_con: 2,
+                    mix: Mix { extcode: 10, balance: 10, call: 10, sload: 4, sstore: 2, create: 0, selfdestruct: 0, slots: 8, vmax: 1, len: (2, 6), ..Mix::default() },
+                    kind_w: [16, 0, 0, 0],
+                    hot_sender_pct: 10,
+                    destroy_flip_contract: true,
+                    low_gas_pct: 0,
+                    ..GenParams::default()
+                },
+            },
         ],
         profiles: ProfileWeights {
             focus_classes: &[Class::Mv, Class::ExecPublish, Class::Cache, Class::Commit, Class::ValidateScan],
